@@ -58,6 +58,9 @@ package server
 //@   call Cache.Get#* asserts[C15] rawlookup: !s.depsCheck && arg2 == 0 && arg3 == acKey(s, old(req.ActionDigest.Hash), req.InstanceName) && arg4 == 0 - 1 && arg5 == 0
 //@   call ActionResult#* asserts[C11] validates: !s.depsCheck && arg0 == result
 //@   call maybeInline#* asserts[C06] onlyhits: s.depsCheck && result != nil
+//@   call maybeInline#0 asserts[C11] stdoutpair: arg2 == req.InlineStdout && arg3 == &result.StdoutRaw && arg4 == &result.StdoutDigest
+//@   call maybeInline#1 asserts[C11] stderrpair: arg2 == req.InlineStderr && arg3 == &result.StderrRaw && arg4 == &result.StderrDigest
+//@   call maybeInline#2 asserts[C11] filepair: arg3 == &of.Contents && arg4 == &of.Digest
 
 // maybeInline (C01, C02, C11): bytes that are taken out of an ActionResult go into the CAS under the
 // digest stated next to them (or, when none is stated, under a digest with their own length);
